@@ -11,7 +11,9 @@
 #include <aws/common/array_list.h>
 #include <aws/common/byte_buf.h>
 #include <aws/common/error.h>
-#include <aws/common/private/byte_buf.h>
+extern "C" {
+#include <aws/common/private/byte_buf.h> // reserve_smart(_relative): the private header has no extern "C" guard
+}
 #include <aws/common/string.h>
 #include <aws/common/zero.h>
 
@@ -77,12 +79,25 @@ static uint64_t gen_value() {
     default: return any_u64();
     }
 }
+static std::string gen_numeric() {
+    static const char *special[] = {"18446744073709551615", "18446744073709551616", "184467440737095516150", "ffffffffffffffff", "FFFFFFFFFFFFFFFF",
+                                    "10000000000000000", "0", "00000000000000000018446744073709551615", "0000000000000000ffffffffffffffff", "0x0", "-1", " 0", "1,000", ""};
+    switch (weighted({35, 30, 20, 15})) {
+    case 0: return bytes_from("0123456789", 10, 1, 21);
+    case 1: return bytes_from("0123456789abcdefABCDEF", 22, 1, 17);
+    case 2: return special[pick(0, sizeof(special) / sizeof(special[0]) - 1)];
+    default: return bytes_from("0123456789abcdefABCDEFg x-", 26, 0, 20);
+    }
+}
+static uint64_t gen_capidx() { return chance(60) ? pick(0, 11) : pick(0, NCAPS - 1); }
 static bool needs_bytes(int k) {
     return k == CUR_BYTES || k == B_WRITE_WHOLE_STRING || k == C_EQ_CSTR || k == C_PARSE || k == STRING_LIFE || k == C_FIND;
 }
 static Op gen_op_of(int k) {
     Op o = mkop(k, {pick(0, 7), pick(0, 7), pick(0, 11), pick(0, 70), gen_value()});
-    if (needs_bytes(k)) o.b = gen_bytes();
+    if (k == C_PARSE) o.b = gen_numeric();
+    else if (needs_bytes(k)) o.b = gen_bytes();
+    if (k == B_INIT || k == B_FROM_ARRAY) o.a[3] = gen_capidx();
     return o;
 }
 static int pick_in(int lo, int hi) { return (int)pick(lo, hi); }
@@ -90,7 +105,8 @@ static int pick_in(int lo, int hi) { return (int)pick(lo, hi); }
 static Case gen_case() {
     Case c;
     // initial kind and capacity of the three buffer slots, allocator flavour
-    c.cfg = {pick(0, 3), pick(0, NCAPS - 1), pick(0, 3), pick(0, NCAPS - 1), pick(0, 3), pick(0, NCAPS - 1), pick(0, 3)};
+    // cfg[0..5]: (kind, capacity index) of each slot; cfg[6]: allocator; cfg[7..9]: initial fill of each buffer; cfg[10]: seed of the initial cursors
+    c.cfg = {pick(0, 5), gen_capidx(), pick(0, 5), gen_capidx(), pick(0, 5), gen_capidx(), pick(0, 3), pick(0, 5), pick(0, 5), pick(0, 5), pick(0, 1000)};
     int profile = (int)weighted({4, 3, 3}); // buffer-heavy, cursor-heavy, mixed
     c.ops = op_list(40, [profile] {
         // family weights: cursor ctor, life cycle, append, reserve, write, cursor mutating, cursor read-only
@@ -98,7 +114,7 @@ static Case gen_case() {
         const unsigned *w = W[profile];
         switch (weighted({w[0], w[1], w[2], w[3], w[4], w[5], w[6]})) {
         case 0:
-            switch (weighted({30, 30, 20, 5, 10, 5})) {
+            switch (weighted({25, 25, 20, 4, 12, 14})) {
             case 0: return gen_op_of(CUR_BYTES);
             case 1: return gen_op_of(CUR_PATTERN);
             case 2: return gen_op_of(CUR_BUFVIEW);
@@ -216,15 +232,18 @@ struct World {
     std::vector<Rel> rels;
     unsigned nfailed = 0, ngrow = 0, nalias = 0, nhuge = 0, nsecure = 0;
     const char *opname = "init";
+    bool skip_snap = false;
 
     explicit World(Ctx &c) : ctx(c), A(nullptr) {
         for (auto &b : bufs) memset(&b.b, 0, sizeof b.b);
         for (auto &x : curs) memset(&x.c, 0, sizeof x.c);
+        new_array("abcd"); // arrays[0]: base address of the locally built phantom cursors
     }
     ~World() {
         galloc::S().on_release = nullptr;
         for (auto &a : arenas) free(a.raw);
         for (auto &a : arrays) free(a.p);
+        for (auto p : temps) free(p);
     }
 
     // ---- harness-owned memory
@@ -236,6 +255,14 @@ struct World {
         a.orig = s;
         arrays.push_back(a);
         return (int)arrays.size() - 1;
+    }
+    // scratch input of a single command (not part of the persistent state, hence not of the snapshot)
+    std::vector<uint8_t *> temps;
+    uint8_t *temp_array(const std::string &s) {
+        uint8_t *p = (uint8_t *)malloc(s.size());
+        if (!s.empty()) memcpy(p, s.data(), s.size());
+        temps.push_back(p);
+        return p;
     }
     int new_arena(size_t cap, uint64_t seed) {
         Arena a;
@@ -313,7 +340,7 @@ struct World {
         for (auto &a : arenas) s.append((const char *)a.raw, a.cap + 2 * G);
         for (auto &a : arrays) s.append((const char *)a.p, a.n);
         {
-            std::lock_guard<std::mutex> g(galloc::S().mu);
+            std::lock_guard<decltype(galloc::S().mu)> g(galloc::S().mu);
             for (auto &kv : galloc::S().live) {
                 s.append((const char *)&kv.first, sizeof kv.first);
                 s.append((const char *)&kv.second.size, sizeof kv.second.size);
@@ -384,4 +411,1222 @@ struct World {
     }
 };
 
-#include "c01_body2.inc"
+void World::step(const Op &op) {
+    int k = ((op.kind % NKINDS) + NKINDS) % NKINDS;
+    rels.clear();
+    aws_reset_error();
+    if (k <= CUR_COPY) {
+        opname = "cursor-ctor";
+        op_cursor_ctor(op, k);
+        check_world();
+        return;
+    }
+    std::string before = snapshot();
+    bool failed = false, partial = false, pure = false;
+    opname = "?";
+    skip_snap = false;
+    if (k <= B_ZERO_RANGE) op_lifecycle(op, k, failed);
+    else if (k <= B_APPEND_DYN_HUGE) op_append(op, k, failed, partial);
+    else if (k <= B_RESERVE_REL_HUGE) op_reserve(op, k, failed);
+    else if (k <= B_ADVANCE) op_write(op, k, failed);
+    else if (k <= C_READ_FILL) op_cursor_mut(op, k, failed);
+    else {
+        op_cursor_ro(op, k, failed, partial);
+        pure = true; // read-only commands (and create+destroy commands) leave every object as it was
+    }
+    if ((failed || pure) && !skip_snap)
+        PBT_CHECK(snapshot() == before, "%s %s, but some buffer struct, cursor struct or byte of a backing store differs from the snapshot taken before the call",
+                  opname, failed ? "reported failure" : "is read-only");
+    if (failed || partial) {
+        nfailed++;
+        ctx.tag("failed_op");
+    }
+    check_world();
+}
+
+// ---------------------------------------------------------------- cursor constructors (harness side)
+void World::op_cursor_ctor(const Op &op, int k) {
+    CurSlot &x = curs[op.arg(0) % NC];
+    switch (k) {
+    case CUR_BYTES:
+    case CUR_PATTERN: {
+        std::string s;
+        if (k == CUR_BYTES) s = op.b;
+        else {
+            size_t n = sel_size(op.arg(2), op.arg(3), bufs[op.arg(1) % NB].avail());
+            if (is_huge(n)) n = (size_t)op.arg(3);
+            if (n > 1300) n = 1300;
+            s = lcg_bytes(n, op.arg(4), (int)(op.arg(4) % 3));
+        }
+        int ai = new_array(s);
+        size_t n = s.size(), off = 0, len = n;
+        if (k == CUR_BYTES && n > 0) switch (op.arg(1) % 4) {
+            case 1: off = 1, len = n - 1; break;
+            case 2: len = n - 1; break;
+            case 3: off = op.arg(3) % n, len = (n - off) / 2; break;
+            default: break;
+            }
+        x.c = aws_byte_cursor_from_array(arrays[ai].p + off, len);
+        x.src = S_ARRAY, x.idx = ai, x.off = off, x.len = len, x.phantom = false;
+        break;
+    }
+    case CUR_BUFVIEW: {
+        int bi = (int)(op.arg(1) % NB);
+        BufSlot &b = bufs[bi];
+        if (!b.ptr) {
+            set_null(x);
+            break;
+        }
+        size_t off = 0, len = b.len, kk = (size_t)op.arg(3);
+        switch (op.arg(2) % 4) {
+        case 1: off = kk % (b.len + 1), len = b.len - off; break;
+        case 2: len = kk % (b.len + 1); break;
+        case 3: off = b.len / 2, len = (b.len - off) ? kk % (b.len - off + 1) : 0; break;
+        default: break;
+        }
+        if (off == 0 && len == b.len) x.c = aws_byte_cursor_from_buf(&b.b);
+        else x.c = aws_byte_cursor_from_array(b.ptr + off, len);
+        x.src = S_BUF, x.idx = bi, x.off = off, x.len = len, x.phantom = false;
+        ctx.tag("cursor_into_buffer");
+        break;
+    }
+    case CUR_NULL: set_null(x); break;
+    case CUR_PHANTOM: {
+        int ai = (int)(op.arg(3) % arrays.size());
+        size_t len = (op.arg(2) % 2) ? SIZE_MAX - (size_t)(op.arg(3) % 6) : HALF + 1 + (size_t)(op.arg(3) % 3);
+        x.c.ptr = arrays[ai].p; // never dereferenced: only passed to operations that must reject by size
+        x.c.len = len;
+        x.src = S_ARRAY, x.idx = ai, x.off = 0, x.len = len, x.phantom = true;
+        ctx.tag("phantom_cursor");
+        break;
+    }
+    default: { // CUR_COPY
+        CurSlot &y = curs[op.arg(1) % NC];
+        if (&x == &y) break;
+        x = y;
+        if (!x.phantom && x.len > 0 && op.arg(2) % 2) { // narrowed, overlapping view
+            size_t cut = (size_t)op.arg(3) % x.len;
+            x.off += cut, x.len -= cut, x.c.ptr += cut, x.c.len -= cut;
+        }
+        break;
+    }
+    }
+}
+
+// ---------------------------------------------------------------- buffer life cycle
+bool World::op_lifecycle(const Op &op, int k, bool &failed) {
+    int i = (int)(op.arg(0) % NB);
+    BufSlot &s = bufs[i];
+    switch (k) {
+    case B_INIT: {
+        if (s.kind != K_ZERO) return false;
+        opname = "aws_byte_buf_init";
+        size_t cap = CAPS[op.arg(3) % NCAPS];
+        memset(&s.b, 0x5A, sizeof s.b); // out-parameter: previous content is irrelevant
+        int rc = aws_byte_buf_init(&s.b, A, cap);
+        PBT_CHECK(rc == AWS_OP_SUCCESS, "init failed");
+        PBT_CHECK(s.b.capacity == cap && s.b.len == 0 && s.b.allocator == A, "init: fields not set (cap %zu len %zu)", s.b.capacity, s.b.len);
+        adopt_owned(i, {});
+        return true;
+    }
+    case B_INIT_COPY: {
+        int j = (int)(op.arg(1) % NB);
+        if (s.kind != K_ZERO || j == i) return false;
+        opname = "aws_byte_buf_init_copy";
+        memset(&s.b, 0x5A, sizeof s.b);
+        int rc = aws_byte_buf_init_copy(&s.b, A, &bufs[j].b);
+        PBT_CHECK(rc == AWS_OP_SUCCESS, "init_copy failed");
+        PBT_CHECK(s.b.allocator == A, "init_copy: allocator not set");
+        PBT_CHECK(s.b.len == bufs[j].len, "init_copy: len %zu, source %zu", s.b.len, bufs[j].len);
+        adopt_owned(i, used(j));
+        return true;
+    }
+    case B_INIT_COPY_CURSOR: {
+        CurSlot &x = curs[op.arg(1) % NC];
+        if (s.kind != K_ZERO || x.phantom) return false;
+        opname = "aws_byte_buf_init_copy_from_cursor";
+        std::string v = view(x);
+        memset(&s.b, 0x5A, sizeof s.b);
+        int rc = aws_byte_buf_init_copy_from_cursor(&s.b, A, x.c);
+        PBT_CHECK(rc == AWS_OP_SUCCESS, "init_copy_from_cursor failed");
+        PBT_CHECK(s.b.len == v.size() && s.b.capacity == v.size() && s.b.allocator == A, "init_copy_from_cursor: len %zu cap %zu, source len %zu", s.b.len,
+                  s.b.capacity, v.size());
+        adopt_owned(i, std::vector<uint8_t>(v.begin(), v.end()));
+        return true;
+    }
+    case B_INIT_CACHE: {
+        if (s.kind != K_ZERO) return false;
+        int c0 = (int)(op.arg(1) % NC), c1 = (int)(op.arg(2) % NC), c2 = (int)(op.arg(3) % NC);
+        bool three = op.arg(4) % 2 && c2 != c0 && c2 != c1;
+        if (c0 == c1 || curs[c0].phantom || curs[c1].phantom || (three && curs[c2].phantom)) return false;
+        opname = "aws_byte_buf_init_cache_and_update_cursors";
+        int order[3] = {c0, c1, c2};
+        int n = three ? 3 : 2;
+        std::vector<uint8_t> all;
+        size_t offs[3];
+        for (int q = 0; q < n; q++) {
+            std::string v = view(curs[order[q]]);
+            offs[q] = all.size();
+            all.insert(all.end(), v.begin(), v.end());
+        }
+        if (all.size() > MAXCAP) return false;
+        memset(&s.b, 0x5A, sizeof s.b);
+        int rc = three ? aws_byte_buf_init_cache_and_update_cursors(&s.b, A, &curs[c0].c, &curs[c1].c, &curs[c2].c, NULL)
+                       : aws_byte_buf_init_cache_and_update_cursors(&s.b, A, &curs[c0].c, &curs[c1].c, NULL);
+        PBT_CHECK(rc == AWS_OP_SUCCESS, "init_cache_and_update_cursors failed");
+        adopt_owned(i, all);
+        for (int q = 0; q < n; q++) {
+            CurSlot &x = curs[order[q]];
+            size_t l = x.len;
+            x.phantom = false;
+            if (!s.ptr) x.src = S_NONE, x.idx = 0, x.off = 0, x.len = 0; // total length 0: documented NULL buffer, cursors get NULL
+            else x.src = S_BUF, x.idx = i, x.off = offs[q], x.len = l;
+        }
+        ctx.tag("cursor_into_buffer");
+        return true;
+    }
+    case B_INIT_CACHE_HUGE: {
+        if (s.kind != K_ZERO) return false;
+        opname = "aws_byte_buf_init_cache_and_update_cursors(total length overflows)";
+        CurSlot &x = curs[op.arg(1) % NC];
+        struct aws_byte_cursor p1, p2;
+        p1.ptr = p2.ptr = arrays[0].p;
+        p2.len = SIZE_MAX - (size_t)(op.arg(3) % 4);
+        bool use_real = !x.phantom && x.len > 0 && op.arg(2) % 2;
+        if (use_real) p2.len = SIZE_MAX - (size_t)(op.arg(3) % x.len); // real.len + p2.len > SIZE_MAX
+        else p1.len = HALF + 1 + (size_t)(op.arg(3) % 3);
+        struct aws_byte_cursor q1 = p1, q2 = p2;
+        int rc = use_real ? aws_byte_buf_init_cache_and_update_cursors(&s.b, A, &x.c, &p2, NULL)
+                          : aws_byte_buf_init_cache_and_update_cursors(&s.b, A, &p1, &p2, NULL);
+        PBT_CHECK(rc == AWS_OP_ERR, "total cursor length exceeds SIZE_MAX but init_cache_and_update_cursors succeeded");
+        PBT_CHECK(p2.ptr == q2.ptr && p2.len == q2.len && (use_real || (p1.ptr == q1.ptr && p1.len == q1.len)), "failed init_cache changed a cursor");
+        failed = true;
+        nhuge++;
+        return true;
+    }
+    case B_FROM_ARRAY: {
+        if (s.kind != K_ZERO) return false;
+        size_t cap = CAPS[op.arg(3) % NCAPS];
+        int mode = (int)(op.arg(1) % 3);
+        int ai;
+        if (mode == 2) {
+            opname = "aws_byte_buf_from_c_str";
+            ai = new_arena(cap + 1, op.arg(4));
+            std::string t = lcg_bytes(cap, op.arg(4), 1);
+            memcpy(arenas[ai].raw + G, t.c_str(), cap + 1);
+            s.b = aws_byte_buf_from_c_str((const char *)arenas[ai].raw + G);
+        } else {
+            opname = mode ? "aws_byte_buf_from_array" : "aws_byte_buf_from_empty_array";
+            ai = new_arena(cap, op.arg(4));
+            s.b = mode ? aws_byte_buf_from_array(arenas[ai].raw + G, cap) : aws_byte_buf_from_empty_array(arenas[ai].raw + G, cap);
+        }
+        if (cap == 0) { // documented: a NULL buffer for a zero capacity
+            make_zero_slot(i);
+            return true;
+        }
+        s.kind = K_STATIC;
+        s.alloc = nullptr;
+        s.ptr = arenas[ai].raw + G;
+        s.store.assign(s.ptr, s.ptr + cap);
+        s.len = mode ? cap : 0;
+        ctx.tag("static_buffer");
+        return true;
+    }
+    case B_FROM_FILE: {
+        if (s.kind != K_ZERO) return false;
+        static const size_t FS[] = {0, 1, 5, 31, 32, 33, 100, 4095, 4096, 4097};
+        size_t n = FS[op.arg(3) % 10];
+        std::string content = lcg_bytes(n, op.arg(4), (int)(op.arg(4) % 2));
+        char path[128];
+        snprintf(path, sizeof path, "/tmp/verif-c01-%d.bin", (int)getpid());
+        FILE *f = fopen(path, "wb");
+        if (!f) return false;
+        if (n) fwrite(content.data(), 1, n, f);
+        fclose(f);
+        memset(&s.b, 0x5A, sizeof s.b);
+        int rc;
+        if (op.arg(1) % 2) {
+            opname = "aws_byte_buf_init_from_file_with_size_hint";
+            static const size_t HS[] = {0, 1, 31, 32, 33, 4096};
+            size_t hint = (op.arg(2) % 9) < 6 ? HS[op.arg(2) % 9] : n + (op.arg(2) % 9) - 7; // n-1, n, n+1
+            if (hint > 8192) hint = 0;
+            rc = aws_byte_buf_init_from_file_with_size_hint(&s.b, A, path, hint);
+        } else {
+            opname = "aws_byte_buf_init_from_file";
+            rc = aws_byte_buf_init_from_file(&s.b, A, path);
+        }
+        unlink(path);
+        PBT_CHECK(rc == AWS_OP_SUCCESS, "%s failed: %s", opname, aws_error_name(aws_last_error()));
+        PBT_CHECK(s.b.len == n, "%s: len %zu, file has %zu bytes", opname, s.b.len, n);
+        PBT_CHECK(s.b.capacity > n && s.b.buffer && s.b.buffer[n] == 0, "%s: no NUL terminator after the data inside the capacity", opname);
+        PBT_CHECK(s.b.capacity <= 4 * MAXCAP, "%s: capacity %zu", opname, s.b.capacity);
+        adopt_owned(i, std::vector<uint8_t>(content.begin(), content.end()));
+        ctx.tag("from_file");
+        return true;
+    }
+    case B_CLEAN_UP:
+    case B_CLEAN_UP_SECURE: {
+        bool secure = k == B_CLEAN_UP_SECURE;
+        opname = secure ? "aws_byte_buf_clean_up_secure" : "aws_byte_buf_clean_up";
+        uint8_t *oldptr = s.ptr;
+        size_t oldcap = s.cap();
+        int kind = s.kind;
+        if (secure) aws_byte_buf_clean_up_secure(&s.b);
+        else aws_byte_buf_clean_up(&s.b);
+        if (kind == K_OWNED && oldptr) expect_one_release(oldptr, oldcap, secure);
+        else PBT_CHECK(rels.empty(), "%s released a block it does not own", opname);
+        if (kind == K_STATIC && secure) {
+            PBT_CHECK(aws_is_mem_zeroed(oldptr, oldcap), "clean_up_secure did not zero the (borrowed) storage");
+            nsecure++;
+        } else if (kind == K_STATIC)
+            PBT_CHECK(memcmp(oldptr, s.store.data(), oldcap) == 0, "clean_up modified borrowed storage");
+        invalidate_views(i);
+        make_zero_slot(i);
+        return true;
+    }
+    case B_RESET:
+    case B_SECURE_ZERO: {
+        bool zero = k == B_SECURE_ZERO || op.arg(1) % 2;
+        opname = k == B_SECURE_ZERO ? "aws_byte_buf_secure_zero" : zero ? "aws_byte_buf_reset(zero)" : "aws_byte_buf_reset";
+        if (k == B_SECURE_ZERO) aws_byte_buf_secure_zero(&s.b);
+        else aws_byte_buf_reset(&s.b, zero);
+        s.len = 0;
+        if (zero) std::fill(s.store.begin(), s.store.end(), 0);
+        return true;
+    }
+    default: { // B_ZERO_RANGE: aws_secure_zero on part of a buffer's storage
+        opname = "aws_secure_zero";
+        if (!s.ptr) {
+            aws_secure_zero(nullptr, 0);
+            return true;
+        }
+        size_t off = (size_t)op.arg(3) % (s.cap() + 1);
+        size_t n = sel_size(op.arg(2), op.arg(3), s.cap() - off);
+        if (n > s.cap() - off) n = s.cap() - off;
+        aws_secure_zero(s.ptr + off, n);
+        std::fill(s.store.begin() + off, s.store.begin() + off + n, 0);
+        return true;
+    }
+    }
+}
+
+// ---------------------------------------------------------------- append family
+static const uint8_t *custom_table() {
+    static uint8_t t[256];
+    static bool init = false;
+    if (!init) {
+        for (int i = 0; i < 256; i++) t[i] = (uint8_t)((i * 7 + 3) ^ 0x5A);
+        init = true;
+    }
+    return t;
+}
+static uint8_t ref_hexnum(uint8_t c) {
+    if (c >= '0' && c <= '9') return (uint8_t)(c - '0');
+    if (c >= 'a' && c <= 'f') return (uint8_t)(c - 'a' + 10);
+    if (c >= 'A' && c <= 'F') return (uint8_t)(c - 'A' + 10);
+    return 255;
+}
+static uint8_t ref_table(int which, uint8_t c) { return which == 0 ? ref_lower(c) : which == 1 ? ref_hexnum(c) : (uint8_t)((c * 7 + 3) ^ 0x5A); }
+static const uint8_t *lib_table(int which) { return which == 0 ? aws_lookup_table_to_lower_get() : which == 1 ? aws_lookup_table_hex_to_num_get() : custom_table(); }
+
+bool World::op_append(const Op &op, int k, bool &failed, bool &partial) {
+    int i = (int)(op.arg(0) % NB);
+    BufSlot &s = bufs[i];
+    // explicit self-aliasing variant: the source is a temporary view of the destination's own used bytes
+    CurSlot selfv, *xp = &curs[op.arg(1) % NC];
+    bool self = false;
+    if (op.arg(1) % 8 >= 6 && s.ptr && (k == B_APPEND || k == B_APPEND_DYN || k == B_APPEND_DYN_SECURE || k == B_APPEND_UPDATE)) {
+        size_t off = op.arg(1) % 8 == 6 ? 0 : (size_t)(op.arg(4) % (s.len + 1));
+        selfv.src = S_BUF, selfv.idx = i, selfv.off = off, selfv.len = s.len - off;
+        selfv.c = off == 0 ? aws_byte_cursor_from_buf(&s.b) : aws_byte_cursor_from_array(s.ptr + off, s.len - off);
+        xp = &selfv, self = true;
+    }
+    CurSlot &x = *xp;
+    // a local copy of the slot's cursor, possibly narrowed to a length chosen relative to the free space
+    struct aws_byte_cursor t = x.c;
+    if (!x.phantom && op.arg(3) % 3 != 0) {
+        size_t want = sel_size(op.arg(2), op.arg(3), s.avail());
+        if (want < t.len) t.len = want;
+    }
+    const struct aws_byte_cursor t0 = t;
+    auto content_of = [&]() { return x.phantom ? std::string() : view(x).substr(0, t.len); };
+    auto put = [&](const std::string &c) {
+        std::copy(c.begin(), c.end(), s.store.begin() + s.len);
+        s.len += c.size();
+    };
+    // shared by the four growing appends
+    auto dyn_append = [&](const std::string &c, bool secure, const std::function<int()> &call) -> bool {
+        bool fits = s.avail() >= c.size();
+        if (!fits && s.len + c.size() > MAXCAP) return false;
+        uint8_t *oldptr = s.ptr;
+        size_t oldcap = s.cap();
+        std::vector<uint8_t> expect = used(i);
+        expect.insert(expect.end(), c.begin(), c.end());
+        int rc = call();
+        if (s.kind != K_OWNED) { // no allocator: cannot grow
+            if (rc == AWS_OP_SUCCESS) {
+                PBT_CHECK(fits, "%s grew a buffer that has no allocator", opname);
+                put(c);
+            } else
+                failed = true;
+            return true;
+        }
+        PBT_CHECK(rc == AWS_OP_SUCCESS, "%s failed: %s", opname, aws_error_name(aws_last_error()));
+        if (fits && s.b.buffer == oldptr) {
+            PBT_CHECK(rels.empty(), "%s released a block although the data fit", opname);
+            put(c);
+        } else {
+            PBT_CHECK(!fits || s.b.capacity >= oldcap, "%s shrank the buffer", opname);
+            if (oldptr) expect_one_release(oldptr, oldcap, secure);
+            else PBT_CHECK(rels.empty(), "%s: unexpected release", opname);
+            invalidate_views(i);
+            adopt_owned(i, expect);
+            ngrow++;
+            ctx.tag(secure ? "grow_secure" : "grow");
+        }
+        return true;
+    };
+
+    switch (k) {
+    case B_APPEND:
+    case B_APPEND_LOOKUP: {
+        int which = (int)(op.arg(4) % 3);
+        if (k == B_APPEND_LOOKUP && x.src == S_BUF && views_buf(x, i)) return false; // overlap is documented as not handled
+        if (!append_alias_ok(x, i)) return false;
+        opname = k == B_APPEND ? "aws_byte_buf_append" : "aws_byte_buf_append_with_lookup";
+        std::string c = content_of();
+        if (k == B_APPEND_LOOKUP)
+            for (auto &ch : c) ch = (char)ref_table(which, (uint8_t)ch);
+        bool fits = !x.phantom && s.avail() >= t.len;
+        int rc = k == B_APPEND ? aws_byte_buf_append(&s.b, &t) : aws_byte_buf_append_with_lookup(&s.b, &t, lib_table(which));
+        PBT_CHECK(t.ptr == t0.ptr && t.len == t0.len, "%s modified its (const) source cursor", opname);
+        if (fits) {
+            PBT_CHECK(rc == AWS_OP_SUCCESS, "%s of %zu bytes into %zu free bytes failed", opname, t.len, s.avail());
+            put(c);
+            if (views_buf(x, i) && t.len) nalias++, ctx.tag("alias_append_self");
+        } else {
+            PBT_CHECK(rc == AWS_OP_ERR, "%s of %zu bytes into %zu free bytes succeeded", opname, t.len, s.avail());
+            PBT_CHECK(aws_last_error() == AWS_ERROR_DEST_COPY_TOO_SMALL, "%s: error %s, documented AWS_ERROR_DEST_COPY_TOO_SMALL", opname, aws_error_name(aws_last_error()));
+            failed = true;
+            if (x.phantom) nhuge++;
+        }
+        return true;
+    }
+    case B_APPEND_DYN:
+    case B_APPEND_DYN_SECURE: {
+        bool secure = k == B_APPEND_DYN_SECURE;
+        if (x.phantom || !append_alias_ok(x, i)) return false;
+        opname = secure ? "aws_byte_buf_append_dynamic_secure" : "aws_byte_buf_append_dynamic";
+        bool alias = views_buf(x, i) && t.len;
+        bool ran = dyn_append(content_of(), secure,
+                              [&] { return secure ? aws_byte_buf_append_dynamic_secure(&s.b, &t) : aws_byte_buf_append_dynamic(&s.b, &t); });
+        if (ran) PBT_CHECK(t.ptr == t0.ptr && t.len == t0.len, "%s modified its (const) source cursor", opname);
+        if (ran && alias && !failed) nalias++, ctx.tag("alias_append_self");
+        return ran;
+    }
+    case B_APPEND_BYTE_DYN:
+    case B_APPEND_BYTE_DYN_SECURE: {
+        bool secure = k == B_APPEND_BYTE_DYN_SECURE;
+        opname = secure ? "aws_byte_buf_append_byte_dynamic_secure" : "aws_byte_buf_append_byte_dynamic";
+        uint8_t v = (uint8_t)op.arg(4);
+        return dyn_append(std::string(1, (char)v), secure,
+                          [&] { return secure ? aws_byte_buf_append_byte_dynamic_secure(&s.b, v) : aws_byte_buf_append_byte_dynamic(&s.b, v); });
+    }
+    case B_APPEND_NUL:
+        opname = "aws_byte_buf_append_null_terminator";
+        return dyn_append(std::string(1, '\0'), false, [&] { return aws_byte_buf_append_null_terminator(&s.b); });
+    case B_APPEND_UPDATE: {
+        if (!append_alias_ok(x, i)) return false;
+        opname = "aws_byte_buf_append_and_update";
+        std::string c = x.phantom ? std::string() : view(x);
+        bool fits = !x.phantom && s.avail() >= x.len;
+        bool alias = views_buf(x, i) && x.len;
+        size_t oldlen = s.len;
+        const struct aws_byte_cursor before = x.c;
+        int rc = aws_byte_buf_append_and_update(&s.b, &x.c);
+        if (self) PBT_CHECK(x.c.len == before.len && x.c.ptr == (fits ? s.ptr + oldlen : before.ptr), "%s: cursor not %s", opname, fits ? "moved to the copy" : "left unchanged");
+        if (fits) {
+            PBT_CHECK(rc == AWS_OP_SUCCESS, "%s of %zu bytes into %zu free bytes failed", opname, x.len, s.avail());
+            put(c);
+            if (s.ptr) x.src = S_BUF, x.idx = i, x.off = oldlen; // the cursor now references the copy inside the buffer
+            else x.src = S_NONE, x.idx = 0, x.off = 0;
+            if (alias) nalias++, ctx.tag("alias_append_self");
+            ctx.tag("cursor_into_buffer");
+        } else {
+            PBT_CHECK(rc == AWS_OP_ERR && aws_last_error() == AWS_ERROR_DEST_COPY_TOO_SMALL, "%s of %zu bytes into %zu free bytes: rc %d error %s", opname, x.len,
+                      s.avail(), rc, aws_error_name(aws_last_error()));
+            failed = true;
+            if (x.phantom) nhuge++;
+        }
+        return true;
+    }
+    case B_CAT: {
+        opname = "aws_byte_buf_cat";
+        int n = 2 + (int)(op.arg(4) % 3);
+        int src[4] = {(int)(op.arg(1) % NB), (int)(op.arg(2) % NB), (int)(op.arg(3) % NB), (int)(op.arg(1) / 3 % NB)};
+        bool alias = false;
+        for (int q = 0; q < n; q++) alias |= src[q] == i && bufs[i].len > 0;
+        int rc = n == 2   ? aws_byte_buf_cat(&s.b, 2, &bufs[src[0]].b, &bufs[src[1]].b)
+                 : n == 3 ? aws_byte_buf_cat(&s.b, 3, &bufs[src[0]].b, &bufs[src[1]].b, &bufs[src[2]].b)
+                          : aws_byte_buf_cat(&s.b, 4, &bufs[src[0]].b, &bufs[src[1]].b, &bufs[src[2]].b, &bufs[src[3]].b);
+        // documented to stop part-way: what was appended is the longest prefix of the argument list that fits
+        bool ok = true;
+        size_t appended = 0;
+        for (int q = 0; q < n && ok; q++) {
+            std::vector<uint8_t> c = used(src[q]);
+            if (s.avail() < c.size()) ok = false;
+            else {
+                std::copy(c.begin(), c.end(), s.store.begin() + s.len);
+                s.len += c.size();
+                appended += c.size();
+            }
+        }
+        if (ok) PBT_CHECK(rc == AWS_OP_SUCCESS, "cat of buffers that fit failed");
+        else {
+            PBT_CHECK(rc == AWS_OP_ERR && aws_last_error() == AWS_ERROR_DEST_COPY_TOO_SMALL, "cat beyond capacity: rc %d error %s", rc, aws_error_name(aws_last_error()));
+            if (appended) partial = true, ctx.tag("cat_stopped_part_way");
+            else failed = true;
+        }
+        if (alias) nalias++, ctx.tag("alias_cat_self");
+        return true;
+    }
+    default: { // B_APPEND_DYN_HUGE: len + from.len overflows size_t, must be refused before any allocation
+        if (s.kind != K_OWNED || s.len == 0) return false;
+        bool secure = op.arg(2) % 2;
+        opname = secure ? "aws_byte_buf_append_dynamic_secure(huge)" : "aws_byte_buf_append_dynamic(huge)";
+        struct aws_byte_cursor p;
+        bool use_slot = x.phantom && x.len > SIZE_MAX - s.len;
+        if (use_slot) p = x.c;
+        else p.ptr = arrays[0].p, p.len = SIZE_MAX - (size_t)(op.arg(3) % s.len);
+        const struct aws_byte_cursor p0 = p;
+        int rc = secure ? aws_byte_buf_append_dynamic_secure(&s.b, &p) : aws_byte_buf_append_dynamic(&s.b, &p);
+        PBT_CHECK(rc == AWS_OP_ERR, "%s: size overflow not reported", opname);
+        PBT_CHECK(p.ptr == p0.ptr && p.len == p0.len, "%s modified its source cursor", opname);
+        failed = true;
+        nhuge++;
+        return true;
+    }
+    }
+}
+
+// ---------------------------------------------------------------- reserve family
+bool World::op_reserve(const Op &op, int k, bool &failed) {
+    int i = (int)(op.arg(0) % NB);
+    BufSlot &s = bufs[i];
+    if (k == B_RESERVE_REL_HUGE) { // len + additional overflows: must be refused by the checked add
+        if (s.len == 0) return false;
+        bool smart = op.arg(1) % 2;
+        opname = smart ? "aws_byte_buf_reserve_smart_relative(huge)" : "aws_byte_buf_reserve_relative(huge)";
+        size_t add = SIZE_MAX - (size_t)(op.arg(3) % s.len);
+        int rc = smart ? aws_byte_buf_reserve_smart_relative(&s.b, add) : aws_byte_buf_reserve_relative(&s.b, add);
+        PBT_CHECK(rc == AWS_OP_ERR, "%s: len %zu + %zu overflows but no error was reported", opname, s.len, add);
+        failed = true;
+        nhuge++;
+        return true;
+    }
+    bool rel = k == B_RESERVE_REL || k == B_RESERVE_SMART_REL, smart = k == B_RESERVE_SMART || k == B_RESERVE_SMART_REL;
+    size_t arg = sel_size(op.arg(2), op.arg(3), rel ? s.avail() : s.cap());
+    if (is_huge(arg)) arg = (rel ? s.avail() : s.cap()) + (size_t)op.arg(3);
+    size_t req = rel ? s.len + arg : arg;
+    if (req > MAXCAP) return false;
+    opname = k == B_RESERVE ? "aws_byte_buf_reserve" : k == B_RESERVE_REL ? "aws_byte_buf_reserve_relative" : k == B_RESERVE_SMART ? "aws_byte_buf_reserve_smart" : "aws_byte_buf_reserve_smart_relative";
+    uint8_t *oldptr = s.ptr;
+    size_t oldcap = s.cap();
+    int rc = k == B_RESERVE ? aws_byte_buf_reserve(&s.b, arg) : k == B_RESERVE_REL ? aws_byte_buf_reserve_relative(&s.b, arg) : k == B_RESERVE_SMART ? aws_byte_buf_reserve_smart(&s.b, arg) : aws_byte_buf_reserve_smart_relative(&s.b, arg);
+    if (s.kind != K_OWNED) { // no allocator: the capacity cannot change
+        if (rc == AWS_OP_SUCCESS) PBT_CHECK(req <= oldcap, "%s reported success on a buffer without allocator that is too small", opname);
+        else failed = true;
+        return true;
+    }
+    PBT_CHECK(rc == AWS_OP_SUCCESS, "%s(%zu) failed: %s", opname, arg, aws_error_name(aws_last_error()));
+    if (req <= oldcap) {
+        PBT_CHECK(s.b.capacity == oldcap && s.b.buffer == oldptr && rels.empty(), "%s with a request below the capacity changed the buffer (cap %zu -> %zu)", opname, oldcap,
+                  s.b.capacity);
+        return true;
+    }
+    if (!smart) PBT_CHECK(s.b.capacity == req, "%s: capacity %zu, requested %zu", opname, s.b.capacity, req);
+    else PBT_CHECK(s.b.capacity >= req, "%s: capacity %zu below the request %zu", opname, s.b.capacity, req);
+    if (oldptr) expect_one_release(oldptr, oldcap, false);
+    if (s.b.buffer != oldptr) invalidate_views(i);
+    adopt_owned(i, used(i));
+    ngrow++;
+    ctx.tag("grow_reserve");
+    return true;
+}
+
+// ---------------------------------------------------------------- write family
+static std::string be_bytes(uint64_t v, int n) {
+    std::string s;
+    for (int q = n - 1; q >= 0; q--) s.push_back((char)(v >> (8 * q)));
+    return s;
+}
+// a size argument: relative to the free space, or next to SIZE_MAX such that len + n wraps to a small number
+static size_t size_arg(const Op &op, size_t avail, size_t len) {
+    if (op.arg(2) % 12 == 8) return SIZE_MAX - (size_t)(op.arg(3) % (len + 1));
+    return sel_size(op.arg(2), op.arg(3), avail);
+}
+
+bool World::op_write(const Op &op, int k, bool &failed) {
+    int i = (int)(op.arg(0) % NB);
+    BufSlot &s = bufs[i];
+    CurSlot &x = curs[op.arg(1) % NC];
+    auto put = [&](const std::string &c) {
+        std::copy(c.begin(), c.end(), s.store.begin() + s.len);
+        s.len += c.size();
+    };
+    // all fixed-content writes: success iff the bytes fit (an empty write always succeeds)
+    auto fixed = [&](const std::string &c, bool rv, bool extra_reject = false) {
+        bool ok = !extra_reject && (c.empty() || s.avail() >= c.size());
+        if (ok) {
+            PBT_CHECK(rv, "%s of %zu bytes into %zu free bytes returned false", opname, c.size(), s.avail());
+            put(c);
+        } else {
+            PBT_CHECK(!rv, "%s of %zu bytes into %zu free bytes returned true", opname, c.size(), s.avail());
+            failed = true;
+        }
+        return true;
+    };
+    uint64_t v = op.arg(4);
+    switch (k) {
+    case B_WRITE:
+    case B_WRITE_WHOLE_CURSOR: {
+        if (views_buf(x, i)) return false; // restrict-qualified parameters: no aliasing
+        opname = k == B_WRITE ? "aws_byte_buf_write" : "aws_byte_buf_write_from_whole_cursor";
+        struct aws_byte_cursor t = x.c;
+        bool huge = x.phantom;
+        if (!x.phantom && t.ptr && op.arg(3) % 7 == 0) { // a real pointer with an absurd length: must be refused before copying
+            t.len = op.arg(2) % 3 == 0 ? SIZE_MAX - (size_t)(v % (s.len + 1)) : op.arg(2) % 3 == 1 ? HALF + 1 + (size_t)(v % 3) : HALF - (size_t)(v % 2);
+            huge = true;
+        } else if (!x.phantom && op.arg(3) % 3 != 0) {
+            size_t want = sel_size(op.arg(2), op.arg(3), s.avail());
+            if (!is_huge(want) && want < t.len) t.len = want;
+        }
+        bool rv = k == B_WRITE ? aws_byte_buf_write(&s.b, t.ptr, t.len) : aws_byte_buf_write_from_whole_cursor(&s.b, t);
+        if (huge) {
+            PBT_CHECK(!rv, "%s with length %zu (>= SIZE_MAX/2 - 1) returned true", opname, t.len);
+            failed = true;
+            nhuge++;
+            return true;
+        }
+        return fixed(view(x).substr(0, t.len), rv);
+    }
+    case B_WRITE_U8:
+        opname = "aws_byte_buf_write_u8";
+        return fixed(std::string(1, (char)v), aws_byte_buf_write_u8(&s.b, (uint8_t)v));
+    case B_WRITE_U8_N: {
+        opname = "aws_byte_buf_write_u8_n";
+        size_t n = size_arg(op, s.avail(), s.len);
+        bool rv = aws_byte_buf_write_u8_n(&s.b, (uint8_t)v, n);
+        if (is_huge(n) || n > s.avail()) {
+            PBT_CHECK(!rv, "write_u8_n count %zu into %zu free bytes returned true", n, s.avail());
+            failed = true;
+            if (is_huge(n)) nhuge++;
+            return true;
+        }
+        return fixed(std::string(n, (char)v), rv);
+    }
+    case B_WRITE_BE16: opname = "aws_byte_buf_write_be16"; return fixed(be_bytes(v & 0xFFFF, 2), aws_byte_buf_write_be16(&s.b, (uint16_t)v));
+    case B_WRITE_BE24:
+        opname = "aws_byte_buf_write_be24";
+        return fixed(be_bytes(v & 0xFFFFFF, 3), aws_byte_buf_write_be24(&s.b, (uint32_t)v), /*value does not fit 3 bytes*/ (uint32_t)v > 0xFFFFFF);
+    case B_WRITE_BE32: opname = "aws_byte_buf_write_be32"; return fixed(be_bytes(v & 0xFFFFFFFFull, 4), aws_byte_buf_write_be32(&s.b, (uint32_t)v));
+    case B_WRITE_BE64: opname = "aws_byte_buf_write_be64"; return fixed(be_bytes(v, 8), aws_byte_buf_write_be64(&s.b, v));
+    case B_WRITE_F32: {
+        opname = "aws_byte_buf_write_float_be32";
+        uint32_t bits = (uint32_t)v;
+        if ((bits & 0x7F800000u) == 0x7F800000u) bits &= 0xFF800000u; // no NaN payloads: only byte order is under test
+        float f;
+        memcpy(&f, &bits, 4);
+        return fixed(be_bytes(bits, 4), aws_byte_buf_write_float_be32(&s.b, f));
+    }
+    case B_WRITE_F64: {
+        opname = "aws_byte_buf_write_float_be64";
+        uint64_t bits = v;
+        if ((bits & 0x7FF0000000000000ull) == 0x7FF0000000000000ull) bits &= 0xFFF0000000000000ull;
+        double d;
+        memcpy(&d, &bits, 8);
+        return fixed(be_bytes(bits, 8), aws_byte_buf_write_float_be64(&s.b, d));
+    }
+    case B_WRITE_WHOLE_BUF: {
+        int j = (int)(op.arg(1) % NB);
+        if (j == i) return false;
+        opname = "aws_byte_buf_write_from_whole_buffer";
+        std::vector<uint8_t> c = used(j);
+        return fixed(std::string(c.begin(), c.end()), aws_byte_buf_write_from_whole_buffer(&s.b, bufs[j].b));
+    }
+    case B_WRITE_WHOLE_STRING: {
+        opname = "aws_byte_buf_write_from_whole_string";
+        struct aws_string *str = aws_string_new_from_array(A, (const uint8_t *)op.b.data(), op.b.size());
+        PBT_CHECK(str && str->len == op.b.size() && memcmp(aws_string_bytes(str), op.b.data(), op.b.size()) == 0 && aws_string_bytes(str)[op.b.size()] == 0,
+                  "aws_string_new_from_array: content");
+        bool rv = aws_byte_buf_write_from_whole_string(&s.b, str);
+        rels.clear();
+        if (op.arg(1) % 2) {
+            aws_string_destroy_secure(str);
+            PBT_CHECK(rels.size() == 1 && rels[0].p == (void *)str, "destroy_secure: expected one release");
+            size_t o = offsetof(struct aws_string, bytes);
+            PBT_CHECK(rels[0].bytes.size() >= o + op.b.size() && aws_is_mem_zeroed(rels[0].bytes.data() + o, op.b.size()),
+                      "aws_string_destroy_secure handed the string back without zeroing its %zu bytes", op.b.size());
+            nsecure++;
+        } else
+            aws_string_destroy(str);
+        return fixed(op.b, rv);
+    }
+    case B_WRITE_TO_CAP: {
+        if (x.phantom || views_buf(x, i)) return false;
+        opname = "aws_byte_buf_write_to_capacity";
+        size_t n = std::min(s.avail(), x.len);
+        std::string c = view(x).substr(0, n);
+        const uint8_t *oldp = x.c.ptr;
+        struct aws_byte_cursor w = aws_byte_buf_write_to_capacity(&s.b, &x.c);
+        PBT_CHECK(w.len == n, "write_to_capacity returned a cursor of %zu bytes, %zu expected (free %zu, source %zu)", w.len, n, s.avail(), x.len);
+        if (n) PBT_CHECK(w.ptr == oldp, "write_to_capacity: returned cursor does not start at the old position of the source");
+        put(c);
+        x.off += n, x.len -= n;
+        return true;
+    }
+    default: { // B_ADVANCE
+        opname = "aws_byte_buf_advance";
+        size_t n = size_arg(op, s.avail(), s.len);
+        struct aws_byte_buf out;
+        memset(&out, 0, sizeof out);
+        size_t oldlen = s.len;
+        bool rv = aws_byte_buf_advance(&s.b, &out, n);
+        if (n <= s.avail()) {
+            PBT_CHECK(rv, "buf_advance(%zu) with %zu free bytes returned false", n, s.avail());
+            PBT_CHECK(out.len == 0 && out.capacity == n && out.allocator == nullptr && out.buffer == (n ? s.ptr + oldlen : nullptr), "buf_advance: sub-buffer fields wrong");
+            s.len += n;
+            PBT_CHECK(aws_byte_buf_write_u8_n(&out, (uint8_t)v, n), "filling the sub-buffer failed");
+            std::fill(s.store.begin() + oldlen, s.store.begin() + oldlen + n, (uint8_t)v);
+            PBT_CHECK(!aws_byte_buf_write_u8(&out, 1) && out.len == n, "write into a full sub-buffer succeeded");
+        } else {
+            PBT_CHECK(!rv, "buf_advance(%zu) with %zu free bytes returned true", n, s.avail());
+            PBT_CHECK(out.len == 0 && out.capacity == 0 && out.buffer == nullptr && out.allocator == nullptr, "buf_advance: *output not nulled on failure");
+            failed = true;
+            if (is_huge(n)) nhuge++;
+        }
+        return true;
+    }
+    }
+}
+
+// ---------------------------------------------------------------- cursor commands that move the cursor
+static uint64_t be_value(const std::string &s, size_t n) {
+    uint64_t v = 0;
+    for (size_t q = 0; q < n; q++) v = (v << 8) | (uint8_t)s[q];
+    return v;
+}
+
+bool World::op_cursor_mut(const Op &op, int k, bool &failed) {
+    CurSlot &x = curs[op.arg(0) % NC];
+    size_t n = sel_size(op.arg(2), op.arg(3), x.phantom ? 4 : x.len);
+    const uint8_t *oldp = x.c.ptr;
+    auto moved = [&](size_t by) { x.off += by, x.len -= by; };
+    auto short_read = [&](size_t need) {
+        failed = true;
+        if (x.phantom || is_huge(need)) nhuge++;
+        ctx.tag("short_read");
+    };
+    switch (k) {
+    case C_ADVANCE:
+    case C_ADVANCE_NOSPEC: {
+        opname = k == C_ADVANCE ? "aws_byte_cursor_advance" : "aws_byte_cursor_advance_nospec";
+        struct aws_byte_cursor r = k == C_ADVANCE ? aws_byte_cursor_advance(&x.c, n) : aws_byte_cursor_advance_nospec(&x.c, n);
+        if (!x.phantom && n <= x.len) {
+            PBT_CHECK(r.len == n && r.ptr == oldp, "%s(%zu) on %zu bytes: returned cursor is not the first %zu bytes (len %zu)", opname, n, x.len, n, r.len);
+            moved(n);
+        } else {
+            PBT_CHECK(r.ptr == nullptr && r.len == 0, "%s(%zu) on %zu bytes did not return the empty cursor", opname, n, x.len);
+            short_read(n);
+        }
+        return true;
+    }
+    case C_READ: {
+        opname = "aws_byte_cursor_read";
+        bool ok = n == 0 || (!x.phantom && n <= x.len);
+        size_t dn = ok ? n : (is_huge(n) ? 4 : std::min<size_t>(n, 2048));
+        if (!ok && !is_huge(n) && n > 2048) return false;
+        std::unique_ptr<uint8_t, void (*)(void *)> dest((uint8_t *)malloc(dn ? dn : 1), free);
+        memset(dest.get(), 0x77, dn ? dn : 1);
+        std::string c = x.phantom ? std::string() : view(x).substr(0, std::min(n, x.len));
+        bool rv = aws_byte_cursor_read(&x.c, dest.get(), n);
+        if (ok) {
+            PBT_CHECK(rv, "read(%zu) from %zu bytes returned false", n, x.len);
+            PBT_CHECK(n == 0 || memcmp(dest.get(), c.data(), n) == 0, "read(%zu): destination differs from the cursor's bytes", n);
+            moved(n);
+        } else {
+            PBT_CHECK(!rv, "read(%zu) from %zu bytes returned true", n, x.len);
+            short_read(n);
+        }
+        return true;
+    }
+    case C_READ_HEX: {
+        if (x.phantom) return false; // would legitimately read ptr[0..1]
+        opname = "aws_byte_cursor_read_hex_u8";
+        std::string c = view(x);
+        uint8_t var = 0x77;
+        bool rv = aws_byte_cursor_read_hex_u8(&x.c, &var);
+        bool ok = c.size() >= 2 && ref_hexnum((uint8_t)c[0]) != 255 && ref_hexnum((uint8_t)c[1]) != 255;
+        if (ok) {
+            PBT_CHECK(rv && var == (uint8_t)(ref_hexnum((uint8_t)c[0]) * 16 + ref_hexnum((uint8_t)c[1])), "read_hex_u8: rv %d value %02x", (int)rv, var);
+            moved(2);
+        } else {
+            PBT_CHECK(!rv, "read_hex_u8 accepted a short or non-hex input");
+            failed = true;
+            ctx.tag(c.size() >= 2 ? "bad_digit" : "short_read");
+        }
+        return true;
+    }
+    case C_READ_FILL: {
+        int j = (int)(op.arg(1) % NB);
+        BufSlot &d = bufs[j];
+        if (views_buf(x, j)) return false; // restrict
+        opname = "aws_byte_cursor_read_and_fill_buffer";
+        size_t cap = d.cap();
+        bool ok = cap == 0 || (!x.phantom && x.len >= cap);
+        std::string c = ok && cap ? view(x).substr(0, cap) : std::string();
+        bool rv = aws_byte_cursor_read_and_fill_buffer(&x.c, &d.b);
+        if (ok) {
+            PBT_CHECK(rv, "read_and_fill_buffer(%zu) from %zu bytes returned false", cap, x.len);
+            std::copy(c.begin(), c.end(), d.store.begin());
+            d.len = cap;
+            moved(cap);
+        } else {
+            PBT_CHECK(!rv, "read_and_fill_buffer(%zu) from %zu bytes returned true", cap, x.len);
+            short_read(cap);
+        }
+        return true;
+    }
+    default: {
+        static const size_t W[] = {1, 2, 3, 4, 8, 4, 8};
+        static const char *NM[] = {"read_u8", "read_be16", "read_be24", "read_be32", "read_be64", "read_float_be32", "read_float_be64"};
+        int q = k - C_READ_U8;
+        size_t w = W[q];
+        opname = NM[q];
+        bool ok = !x.phantom && x.len >= w;
+        uint64_t want = ok ? be_value(view(x), w) : 0, got = 0;
+        bool rv;
+        switch (k) {
+        case C_READ_U8: { uint8_t v = 0; rv = aws_byte_cursor_read_u8(&x.c, &v); got = v; break; }
+        case C_READ_BE16: { uint16_t v = 0; rv = aws_byte_cursor_read_be16(&x.c, &v); got = v; break; }
+        case C_READ_BE24: { uint32_t v = 0xFFFFFFFFu; rv = aws_byte_cursor_read_be24(&x.c, &v); got = v; break; }
+        case C_READ_BE32: { uint32_t v = 0; rv = aws_byte_cursor_read_be32(&x.c, &v); got = v; break; }
+        case C_READ_BE64: { uint64_t v = 0; rv = aws_byte_cursor_read_be64(&x.c, &v); got = v; break; }
+        case C_READ_F32: {
+            float f = 0;
+            rv = aws_byte_cursor_read_float_be32(&x.c, &f);
+            uint32_t b;
+            memcpy(&b, &f, 4);
+            got = b;
+            if (f != f) got = want; // NaN payloads are not compared
+            break;
+        }
+        default: {
+            double f = 0;
+            rv = aws_byte_cursor_read_float_be64(&x.c, &f);
+            memcpy(&got, &f, 8);
+            if (f != f) got = want;
+            break;
+        }
+        }
+        if (ok) {
+            PBT_CHECK(rv && got == want, "%s: rv %d value %llx, expected %llx", opname, (int)rv, (unsigned long long)got, (unsigned long long)want);
+            moved(w);
+        } else {
+            PBT_CHECK(!rv, "%s from %zu bytes returned true", opname, x.len);
+            short_read(w);
+        }
+        return true;
+    }
+    }
+}
+
+// ---------------------------------------------------------------- read-only cursor commands
+typedef std::vector<std::pair<size_t, size_t>> Pieces;
+static Pieces ref_split(const std::string &s, char ch) {
+    Pieces r;
+    size_t start = 0;
+    for (size_t q = 0; q < s.size(); q++)
+        if (s[q] == ch) {
+            r.push_back({start, q - start});
+            start = q + 1;
+        }
+    r.push_back({start, s.size() - start});
+    return r;
+}
+static std::string lower(std::string s) {
+    for (auto &c : s) c = (char)ref_lower((uint8_t)c);
+    return s;
+}
+static std::string until_nul(const std::string &s) { return std::string(s.c_str()); }
+static std::string flip_case(std::string s) {
+    for (auto &c : s)
+        if (ref_isalpha((uint8_t)c)) c ^= 0x20;
+    return s;
+}
+// 0 ok, 1 invalid, 2 overflow, 3 both (an implementation may report either)
+static int ref_parse(const std::string &s, int base, uint64_t *out) {
+    if (s.empty()) return 1;
+    bool bad = false, over = false;
+    unsigned __int128 v = 0;
+    for (unsigned char c : s) {
+        uint8_t d = ref_hexnum(c);
+        if (d >= base) {
+            bad = true;
+            continue;
+        }
+        if (!over) {
+            v = v * base + d;
+            if (v > (unsigned __int128)UINT64_MAX) over = true;
+        }
+    }
+    *out = (uint64_t)v;
+    return bad && over ? 3 : bad ? 1 : over ? 2 : 0;
+}
+
+bool World::op_cursor_ro(const Op &op, int k, bool &failed, bool &partial) {
+    CurSlot &x = curs[op.arg(0) % NC];
+    CurSlot &y = curs[op.arg(1) % NC];
+    auto split_char = [&](const std::string &c) -> char {
+        static const char set[] = {';', ' ', ',', 'a', 0, (char)0xff, '\n'};
+        if (!c.empty() && op.arg(4) % 4 == 0) return c[op.arg(3) % c.size()];
+        return set[op.arg(3) % 7];
+    };
+    switch (k) {
+    case C_NEXT_SPLIT: {
+        if (x.phantom) return false;
+        opname = "aws_byte_cursor_next_split";
+        std::string c = view(x);
+        char ch = split_char(c);
+        Pieces want = ref_split(c, ch);
+        struct aws_byte_cursor sub;
+        memset(&sub, 0, sizeof sub);
+        size_t cnt = 0;
+        while (aws_byte_cursor_next_split(&x.c, ch, &sub)) {
+            PBT_CHECK(cnt < want.size(), "next_split produced more than the %zu pieces of the input", want.size());
+            PBT_CHECK(sub.len == want[cnt].second, "next_split piece %zu has length %zu, expected %zu", cnt, sub.len, want[cnt].second);
+            if (x.c.ptr) PBT_CHECK(sub.ptr == x.c.ptr + want[cnt].first, "next_split piece %zu does not start at offset %zu of the input", cnt, want[cnt].first);
+            cnt++;
+        }
+        PBT_CHECK(cnt == want.size(), "next_split stopped after %zu of %zu pieces", cnt, want.size());
+        PBT_CHECK(sub.len == 0, "next_split: substr not empty after the last piece");
+        if (want.size() > 1) ctx.tag("split_multi");
+        return true;
+    }
+    case C_SPLIT: {
+        if (x.phantom) return false;
+        std::string c = view(x);
+        char ch = split_char(c);
+        static const size_t NS[] = {0, 0, 1, 2, 3, SIZE_MAX, HALF};
+        size_t n = NS[op.arg(1) % 7];
+        bool plain = op.arg(1) % 7 == 0;
+        opname = plain ? "aws_byte_cursor_split_on_char" : "aws_byte_cursor_split_on_char_n";
+        Pieces want = ref_split(c, ch);
+        if (n > 0 && want.size() - 1 > n) { // the (n+1)th piece takes the rest of the input
+            want.resize(n + 1);
+            want[n].second = c.size() - want[n].first;
+        }
+        size_t lcap = op.arg(2) % 5; // 0: dynamic list (never fills), else a static list of 1..4 items
+        size_t prefill = lcap ? op.arg(3) % (lcap + 1) : op.arg(3) % 3;
+        struct aws_array_list list;
+        std::unique_ptr<uint8_t, void (*)(void *)> mem((uint8_t *)malloc(lcap ? lcap * sizeof(struct aws_byte_cursor) : 1), free);
+        if (lcap) aws_array_list_init_static(&list, mem.get(), lcap, sizeof(struct aws_byte_cursor));
+        else PBT_CHECK(aws_array_list_init_dynamic(&list, A, op.arg(3) % 3, sizeof(struct aws_byte_cursor)) == AWS_OP_SUCCESS, "list init");
+        struct aws_byte_cursor dummy = {12345, (uint8_t *)mem.get()};
+        for (size_t q = 0; q < prefill; q++) PBT_CHECK(aws_array_list_push_back(&list, &dummy) == AWS_OP_SUCCESS, "prefill");
+        const struct aws_byte_cursor in0 = x.c;
+        int rc = plain ? aws_byte_cursor_split_on_char(&x.c, ch, &list) : aws_byte_cursor_split_on_char_n(&x.c, ch, n, &list);
+        size_t room = lcap ? lcap - prefill : SIZE_MAX;
+        size_t got = aws_array_list_length(&list);
+        std::string err;
+        if (want.size() <= room) {
+            if (rc != AWS_OP_SUCCESS) err = "split into a list with enough room failed";
+            else if (got != prefill + want.size()) err = fmt("split produced %zu pieces, expected %zu", got - prefill, want.size());
+        } else { // documented to stop part-way: the list holds the first pieces, up to its capacity
+            if (rc != AWS_OP_ERR) err = "split into a list that fills up reported success";
+            else if (got != lcap) err = fmt("list of capacity %zu holds %zu items after a failed split", lcap, got);
+            partial = true;
+            ctx.tag("split_list_full");
+        }
+        for (size_t q = 0; err.empty() && q < got; q++) {
+            struct aws_byte_cursor it;
+            aws_array_list_get_at(&list, &it, q);
+            if (q < prefill) {
+                if (it.len != 12345 || it.ptr != mem.get()) err = "an item that was already in the list was modified";
+                continue;
+            }
+            auto &w = want[q - prefill];
+            if (it.len != w.second || (in0.ptr && it.ptr != in0.ptr + w.first)) err = fmt("piece %zu is (offset %td, len %zu), expected (%zu, %zu)", q - prefill, in0.ptr ? it.ptr - in0.ptr : 0, it.len, w.first, w.second);
+        }
+        // the input is const in the signature; the header says it is advanced past the last processed separator when the list is too small
+        if (err.empty() && !(x.c.ptr == in0.ptr && x.c.len == in0.len)) {
+            bool doc = partial && in0.ptr && x.c.ptr >= in0.ptr && x.c.ptr <= in0.ptr + in0.len && x.c.len == (size_t)(in0.ptr + in0.len - x.c.ptr);
+            if (!doc) err = "split changed its input cursor";
+            else x.off += (size_t)(x.c.ptr - in0.ptr), x.len = x.c.len, skip_snap = true;
+        }
+        if (!lcap) aws_array_list_clean_up(&list);
+        PBT_CHECK(err.empty(), "%s: %s", opname, err.c_str());
+        if (want.size() > 1) ctx.tag("split_multi");
+        return true;
+    }
+    case C_FIND: {
+        if (x.phantom) return false;
+        opname = "aws_byte_cursor_find_exact";
+        std::string hay = view(x), needle;
+        struct aws_byte_cursor nc;
+        bool huge = false;
+        if (op.arg(2) % 2) {
+            needle = op.arg(2) % 4 == 1 && !hay.empty() ? hay.substr(op.arg(3) % hay.size(), 1 + op.arg(4) % 4) : op.b;
+            nc = aws_byte_cursor_from_array(temp_array(needle), needle.size());
+        } else {
+            nc = y.c;
+            huge = y.phantom;
+            if (!huge) needle = view(y);
+        }
+        struct aws_byte_cursor found = {777, nullptr};
+        int rc = aws_byte_cursor_find_exact(&x.c, &nc, &found);
+        size_t pos = huge || needle.empty() ? std::string::npos : hay.find(needle);
+        if (pos != std::string::npos) {
+            PBT_CHECK(rc == AWS_OP_SUCCESS, "find_exact missed a match at offset %zu", pos);
+            PBT_CHECK(found.ptr == x.c.ptr + pos && found.len == hay.size() - pos, "find_exact: result (offset %td, len %zu), expected (%zu, %zu)", found.ptr - x.c.ptr, found.len, pos,
+                      hay.size() - pos);
+            ctx.tag("find_hit");
+        } else if (huge || !needle.empty()) {
+            PBT_CHECK(rc == AWS_OP_ERR && aws_last_error() == AWS_ERROR_STRING_MATCH_NOT_FOUND, "find_exact without a match: rc %d error %s", rc, aws_error_name(aws_last_error()));
+            failed = true;
+            if (huge) nhuge++;
+        } else if (rc != AWS_OP_SUCCESS) // empty needle: the header is silent; only "a failure changes nothing" applies
+            failed = true;
+        else PBT_CHECK(found.ptr >= x.c.ptr && found.ptr + found.len == x.c.ptr + x.c.len, "find_exact(empty needle): result outside the input");
+        return true;
+    }
+    case C_TRIM:
+    case C_SATISFIES: {
+        if (x.phantom) return false;
+        const Pred &p = PREDS[op.arg(1) % 7];
+        std::string c = view(x);
+        size_t l = 0, r = c.size();
+        if (k == C_SATISFIES) {
+            opname = "aws_byte_cursor_satisfies_pred";
+            bool all = true;
+            for (unsigned char ch : c) all &= p.ref(ch);
+            PBT_CHECK(aws_byte_cursor_satisfies_pred(&x.c, p.lib) == all, "satisfies_pred(%s) wrong", p.name);
+            return true;
+        }
+        int side = (int)(op.arg(2) % 3);
+        opname = side == 0 ? "aws_byte_cursor_left_trim_pred" : side == 1 ? "aws_byte_cursor_right_trim_pred" : "aws_byte_cursor_trim_pred";
+        if (side != 1)
+            while (l < r && p.ref((uint8_t)c[l])) l++;
+        if (side != 0)
+            while (r > l && p.ref((uint8_t)c[r - 1])) r--;
+        struct aws_byte_cursor t = side == 0 ? aws_byte_cursor_left_trim_pred(&x.c, p.lib) : side == 1 ? aws_byte_cursor_right_trim_pred(&x.c, p.lib) : aws_byte_cursor_trim_pred(&x.c, p.lib);
+        PBT_CHECK(t.len == r - l, "%s(%s): length %zu, expected %zu", opname, p.name, t.len, r - l);
+        if (x.c.ptr) PBT_CHECK(t.ptr == x.c.ptr + l, "%s(%s): starts at offset %td, expected %zu", opname, p.name, t.ptr - x.c.ptr, l);
+        else PBT_CHECK(t.ptr == nullptr, "%s of a NULL cursor returned a pointer", opname);
+        if (r - l != c.size()) ctx.tag("trimmed");
+        return true;
+    }
+    case C_CMP_LEX:
+    case C_CMP_LOOKUP: {
+        if (x.phantom || y.phantom) return false;
+        std::string a = view(x), b = view(y);
+        int which = (int)(op.arg(2) % 3);
+        if (k == C_CMP_LEX) {
+            if (!x.c.ptr || !y.c.ptr) return false; // documented precondition: non-NULL pointers
+            opname = "aws_byte_cursor_compare_lexical";
+        } else {
+            opname = "aws_byte_cursor_compare_lookup";
+            for (auto &ch : a) ch = (char)ref_table(which, (uint8_t)ch);
+            for (auto &ch : b) ch = (char)ref_table(which, (uint8_t)ch);
+        }
+        int want = sgn(a.compare(b)); // std::string compares as unsigned char, then by length
+        int got = k == C_CMP_LEX ? aws_byte_cursor_compare_lexical(&x.c, &y.c) : aws_byte_cursor_compare_lookup(&x.c, &y.c, lib_table(which));
+        PBT_CHECK(sgn(got) == want, "%s: sign %d, expected %d", opname, sgn(got), want);
+        return true;
+    }
+    case C_EQ: {
+        if (x.phantom && y.phantom) return false;
+        bool huge = x.phantom || y.phantom; // different lengths: must be decided by size alone
+        int var = (int)(op.arg(2) % 3);
+        opname = var == 0 ? "aws_byte_cursor_eq" : var == 1 ? "aws_byte_cursor_eq_ignore_case" : "aws_array_eq";
+        bool want = !huge && (var == 1 ? lower(view(x)) == lower(view(y)) : view(x) == view(y));
+        bool got = var == 0 ? aws_byte_cursor_eq(&x.c, &y.c) : var == 1 ? aws_byte_cursor_eq_ignore_case(&x.c, &y.c) : aws_array_eq(x.c.ptr, x.c.len, y.c.ptr, y.c.len);
+        PBT_CHECK(got == want, "%s: %d, expected %d", opname, (int)got, (int)want);
+        if (huge) nhuge++;
+        if (want && x.len) ctx.tag("eq_true");
+        return true;
+    }
+    case C_EQ_BUF: {
+        BufSlot &b = bufs[op.arg(1) % NB];
+        bool ic = op.arg(2) % 2;
+        opname = ic ? "aws_byte_cursor_eq_byte_buf_ignore_case" : "aws_byte_cursor_eq_byte_buf";
+        std::vector<uint8_t> u(b.store.begin(), b.store.begin() + b.len);
+        std::string bs(u.begin(), u.end());
+        bool want = !x.phantom && (ic ? lower(view(x)) == lower(bs) : view(x) == bs);
+        bool got = ic ? aws_byte_cursor_eq_byte_buf_ignore_case(&x.c, &b.b) : aws_byte_cursor_eq_byte_buf(&x.c, &b.b);
+        PBT_CHECK(got == want, "%s: %d, expected %d", opname, (int)got, (int)want);
+        if (x.phantom) nhuge++;
+        if (want && x.len) ctx.tag("eq_true");
+        return true;
+    }
+    case C_EQ_CSTR: {
+        if (x.phantom) return false;
+        std::string c = view(x);
+        std::string z = op.arg(3) % 3 == 0 ? until_nul(c) : op.arg(3) % 3 == 1 ? flip_case(until_nul(c)) : until_nul(op.b);
+        const char *cs = (const char *)temp_array(z + std::string(1, '\0')); // exact size: reading past the terminator is an ASan report
+        bool ic = op.arg(2) % 2;
+        opname = ic ? "aws_byte_cursor_eq_c_str_ignore_case" : "aws_byte_cursor_eq_c_str";
+        bool want = ic ? lower(c) == lower(z) : c == z;
+        bool got = ic ? aws_byte_cursor_eq_c_str_ignore_case(&x.c, cs) : aws_byte_cursor_eq_c_str(&x.c, cs);
+        PBT_CHECK(got == want, "%s: %d, expected %d", opname, (int)got, (int)want);
+        if (want && x.len) ctx.tag("eq_true");
+        return true;
+    }
+    case C_STARTS: {
+        if (x.phantom) return false;
+        bool ic = op.arg(2) % 2;
+        opname = ic ? "aws_byte_cursor_starts_with_ignore_case" : "aws_byte_cursor_starts_with";
+        std::string a = view(x), p = y.phantom ? std::string() : view(y);
+        if (ic) a = lower(a), p = lower(p);
+        bool want = !y.phantom && a.size() >= p.size() && a.compare(0, p.size(), p) == 0;
+        bool got = ic ? aws_byte_cursor_starts_with_ignore_case(&x.c, &y.c) : aws_byte_cursor_starts_with(&x.c, &y.c);
+        PBT_CHECK(got == want, "%s: %d, expected %d", opname, (int)got, (int)want);
+        if (y.phantom) nhuge++;
+        return true;
+    }
+    case C_PARSE: {
+        bool is_hex = op.arg(1) % 2;
+        opname = is_hex ? "aws_byte_cursor_utf8_parse_u64_hex" : "aws_byte_cursor_utf8_parse_u64";
+        std::string c;
+        struct aws_byte_cursor pc;
+        if (x.phantom || op.arg(2) % 2) {
+            c = op.b;
+            pc = aws_byte_cursor_from_array(temp_array(c), c.size());
+        } else
+            c = view(x), pc = x.c;
+        uint64_t want = 0, got = 0x7777;
+        int cls = ref_parse(c, is_hex ? 16 : 10, &want);
+        int rc = is_hex ? aws_byte_cursor_utf8_parse_u64_hex(pc, &got) : aws_byte_cursor_utf8_parse_u64(pc, &got);
+        int e = aws_last_error();
+        if (cls == 0) {
+            PBT_CHECK(rc == AWS_OP_SUCCESS && got == want, "%s(hex %s): rc %d value %llu, expected %llu", opname, pbt::hex(c).c_str(), rc, (unsigned long long)got, (unsigned long long)want);
+            ctx.tag("parse_ok");
+        } else {
+            PBT_CHECK(rc == AWS_OP_ERR, "%s accepted an input it must reject (class %d)", opname, cls);
+            bool code_ok = cls == 1 ? e == AWS_ERROR_INVALID_ARGUMENT : cls == 2 ? e == AWS_ERROR_OVERFLOW_DETECTED : (e == AWS_ERROR_INVALID_ARGUMENT || e == AWS_ERROR_OVERFLOW_DETECTED);
+            PBT_CHECK(code_ok, "%s: error %s for rejection class %d", opname, aws_error_name(e), cls);
+            failed = true;
+            ctx.tag(cls == 2 ? "parse_overflow" : "bad_digit");
+        }
+        return true;
+    }
+    case B_EQ: {
+        BufSlot &a = bufs[op.arg(0) % NB], &b = bufs[op.arg(1) % NB];
+        std::string as(a.store.begin(), a.store.begin() + a.len), bs(b.store.begin(), b.store.begin() + b.len);
+        int var = (int)(op.arg(2) % 4);
+        bool want, got;
+        if (var < 2) {
+            opname = var ? "aws_byte_buf_eq_ignore_case" : "aws_byte_buf_eq";
+            want = var ? lower(as) == lower(bs) : as == bs;
+            got = var ? aws_byte_buf_eq_ignore_case(&a.b, &b.b) : aws_byte_buf_eq(&a.b, &b.b);
+        } else {
+            opname = var == 3 ? "aws_byte_buf_eq_c_str_ignore_case" : "aws_byte_buf_eq_c_str";
+            std::string z = op.arg(3) % 2 ? until_nul(as) : flip_case(until_nul(bs));
+            const char *cs = (const char *)temp_array(z + std::string(1, '\0'));
+            want = var == 3 ? lower(as) == lower(z) : as == z;
+            got = var == 3 ? aws_byte_buf_eq_c_str_ignore_case(&a.b, cs) : aws_byte_buf_eq_c_str(&a.b, cs);
+        }
+        PBT_CHECK(got == want, "%s: %d, expected %d", opname, (int)got, (int)want);
+        return true;
+    }
+    case MEM_ZEROED: {
+        opname = "aws_is_mem_zeroed";
+        if (x.phantom) return false;
+        std::string c = view(x);
+        bool want = true;
+        for (char ch : c) want &= ch == 0;
+        if (c.empty() && !x.c.ptr) return false;
+        PBT_CHECK(aws_is_mem_zeroed(x.c.ptr, x.c.len) == want, "aws_is_mem_zeroed over %zu bytes: expected %d", c.size(), (int)want);
+        return true;
+    }
+    default: { // STRING_LIFE: aws_string made from a cursor / buffer, compared, handed back securely
+        opname = "aws_string new/destroy_secure";
+        std::string c;
+        struct aws_string *str;
+        int var = (int)(op.arg(2) % 3);
+        if (var == 0 && !x.phantom) c = view(x), str = aws_string_new_from_cursor(A, &x.c);
+        else if (var == 1) {
+            BufSlot &b = bufs[op.arg(1) % NB];
+            c.assign(b.store.begin(), b.store.begin() + b.len);
+            str = aws_string_new_from_buf(A, &b.b);
+        } else {
+            c = until_nul(op.b);
+            str = aws_string_new_from_c_str(A, (const char *)temp_array(c + std::string(1, '\0')));
+        }
+        PBT_CHECK(str && aws_string_is_valid(str) && str->len == c.size(), "aws_string_new: length %zu, expected %zu", str ? str->len : 0, c.size());
+        PBT_CHECK(memcmp(aws_string_bytes(str), c.data(), c.size()) == 0 && aws_string_bytes(str)[c.size()] == 0, "aws_string_new: bytes / terminator");
+        struct aws_byte_cursor sc = aws_byte_cursor_from_string(str);
+        PBT_CHECK(sc.ptr == aws_string_bytes(str) && sc.len == c.size(), "aws_byte_cursor_from_string");
+        if (!x.phantom) PBT_CHECK(aws_string_eq_byte_cursor(str, &x.c) == (view(x) == c), "aws_string_eq_byte_cursor");
+        rels.clear();
+        bool secure = op.arg(3) % 4 != 0;
+        if (secure) aws_string_destroy_secure(str);
+        else aws_string_destroy(str);
+        PBT_CHECK(rels.size() == 1 && rels[0].p == (void *)str, "string destroy: expected exactly one release");
+        if (secure) {
+            size_t o = offsetof(struct aws_string, bytes);
+            PBT_CHECK(rels[0].bytes.size() >= o + c.size() && aws_is_mem_zeroed(rels[0].bytes.data() + o, c.size()), "aws_string_destroy_secure handed the string back without zeroing its %zu bytes", c.size());
+            if (!c.empty()) nsecure++, ctx.tag("string_secure");
+        }
+        return true;
+    }
+    }
+}
+
+// ---------------------------------------------------------------- one case
+static void run(const Case &c, Ctx &ctx) {
+    galloc::reset();
+    World w(ctx);
+    w.A = c.c(6) % 4 == 3 ? galloc::basic() : galloc::full(); // both aws_mem_realloc paths
+    World *wp = &w;
+    galloc::S().on_release = [wp](void *p, size_t n) { // no PBT_CHECK here: called from inside the library
+        Rel r;
+        r.p = p;
+        r.n = n;
+        r.zero = aws_is_mem_zeroed(p, n);
+        r.bytes.assign((const char *)p, n);
+        wp->rels.push_back(std::move(r));
+    };
+    w.check_world();
+    for (int i = 0; i < NB; i++) { // initial shape of the three buffers: zeroed, owned (x3), static empty, static full
+        uint64_t kind = c.c(2 * i) % 6, capi = c.c(2 * i + 1);
+        if (kind >= 1 && kind <= 3) w.step(mkop(B_INIT, {(uint64_t)i, 0, 0, capi, 0}));
+        else if (kind >= 4) w.step(mkop(B_FROM_ARRAY, {(uint64_t)i, kind - 4, 0, capi, capi * 77 + i}));
+        // initial fill: nothing, full, one short, two short, half, 3 bytes
+        static const uint64_t FILL[] = {3, 0, 1, 7, 5, 5}, FILLK[] = {0, 0, 0, 0, 3, 1};
+        if (kind != 5) w.step(mkop(B_WRITE_U8_N, {(uint64_t)i, 0, FILL[c.c(7 + i) % 6], FILLK[c.c(7 + i) % 6], 0x41 + (uint64_t)i}));
+    }
+    for (int j = 0; j < NC - 1; j++) // cursors 0..2 start as text / hex digits / arbitrary bytes, cursor 3 as {NULL,0}
+        w.step(mkop(CUR_PATTERN, {(uint64_t)j, 0, 5, 3 + (c.c(10) * (j + 1)) % 37, c.c(10) * 3 + (uint64_t)(j == 0 ? 1 : j == 1 ? 2 : 0)}));
+    w.nfailed = w.ngrow = w.nalias = w.nhuge = w.nsecure = 0; // the set-up does not count
+    ctx.tags.clear();
+    for (auto &op : c.ops) w.step(op);
+    unsigned nfailed = w.nfailed, nsecure = w.nsecure;
+    for (int i = 0; i < NB; i++) w.step(mkop(i % 2 ? B_CLEAN_UP_SECURE : B_CLEAN_UP, {(uint64_t)i}));
+    PBT_CHECK(galloc::live_blocks() == 0, "storage not released by clean_up: %zu blocks", galloc::live_blocks());
+
+    if (nfailed && (w.ngrow || w.nalias || w.nhuge)) ctx.nontrivial = true;
+    if (w.ngrow) ctx.tag("has_grow");
+    if (w.nalias) ctx.tag("has_alias");
+    if (w.nhuge) ctx.tag("huge_size_ops");
+    if (nsecure) ctx.tag("secure_release_observed");
+    if (w.A == galloc::basic()) ctx.tag("allocator_without_realloc");
+}
+
+int main(int argc, char **argv) {
+    Spec sp{"C01", "c01_bytebuf", gen_case, run,
+            "generated command sequences (<=40) over 3 buffers (zeroed/owned/static with guard bytes) and 4 cursors (exact-size arrays, views into "
+            "buffers, NULL, phantom huge-length views); non-trivial = >=1 command that reported failure and >=1 growing, self-aliasing or "
+            "huge-size (>= SIZE_MAX/2 - 4) command; distinct by hash of the serialised case"};
+    return pbt_main(argc, argv, sp);
+}
